@@ -507,24 +507,27 @@ carquet_writer_t* carquet_writer_create(
         return NULL;
     }
 
+    /* Keep the path before the file exists: a failure after fopen would
+     * leave the caller with a created (or truncated) file and no writer to
+     * abort it with. */
+    writer->path = strdup(path);
+    if (!writer->path) {
+        carquet_arena_destroy(&writer->arena);
+        free(writer);
+        CARQUET_SET_ERROR(error, CARQUET_ERROR_OUT_OF_MEMORY, "Failed to allocate path");
+        return NULL;
+    }
+
     /* Open file */
     writer->file = fopen(path, "wb");
     if (!writer->file) {
+        free(writer->path);
         carquet_arena_destroy(&writer->arena);
         free(writer);
         CARQUET_SET_ERROR(error, CARQUET_ERROR_FILE_OPEN, "Failed to open file for writing: %s", path);
         return NULL;
     }
     writer->owns_file = true;
-
-    writer->path = strdup(path);
-    if (!writer->path) {
-        fclose(writer->file);
-        carquet_arena_destroy(&writer->arena);
-        free(writer);
-        CARQUET_SET_ERROR(error, CARQUET_ERROR_OUT_OF_MEMORY, "Failed to allocate path");
-        return NULL;
-    }
 
     /* Copy options */
     if (options) {
